@@ -26,6 +26,7 @@ type SpecEnv struct {
 	pkg   *ssa.Package
 	inOld bool
 	reach string
+	pol   int // +1: positive position of a goal being proved; -1: negative; 0: assumption
 }
 
 func (f *Frame) specEnv(st, old *State, pkg *ssa.Package) *SpecEnv {
@@ -201,7 +202,13 @@ func (env *SpecEnv) eval(e Expr) (sval, error) {
 		}
 		return sval{}, fmt.Errorf("unknown identifier %q", x.Name)
 	case *EUn:
+		if x.Op == "!" {
+			env.pol = -env.pol
+		}
 		v, err := env.eval(x.X)
+		if x.Op == "!" {
+			env.pol = -env.pol
+		}
 		if err != nil {
 			return sval{}, err
 		}
@@ -338,7 +345,25 @@ func (env *SpecEnv) importedPkg(name string) *ssa.Package {
 func (env *SpecEnv) evalBin(x *EBin) (sval, error) {
 	switch x.Op {
 	case "&&", "||", "==>", "<==>":
+		if x.Op == "<==>" && env.pol != 0 {
+			// both directions, each with its own polarity
+			a, err := env.evalBin(&EBin{"==>", x.L, x.R})
+			if err != nil {
+				return sval{}, err
+			}
+			b, err := env.evalBin(&EBin{"==>", x.R, x.L})
+			if err != nil {
+				return sval{}, err
+			}
+			return sval{t: And(a.t, b.t), sort: "Bool"}, nil
+		}
+		if x.Op == "==>" {
+			env.pol = -env.pol
+		}
 		l, err := env.evalBool(x.L)
+		if x.Op == "==>" {
+			env.pol = -env.pol
+		}
 		if err != nil {
 			return sval{}, err
 		}
@@ -448,17 +473,42 @@ func (env *SpecEnv) equal(l, r sval) (string, error) {
 	if l.sort == "Slice" && r.sort == "Slice" && (l.typ == nil || isByteSlice(l.typ)) {
 		ls, _ := env.asStr(l)
 		rs, _ := env.asStr(r)
-		return Eq(ls, rs), nil
+		return env.strEq(ls, rs), nil
 	}
 	if l.sort == "Slice" && r.sort == "Str" || l.sort == "Str" && r.sort == "Slice" {
 		ls, _ := env.asStr(l)
 		rs, _ := env.asStr(r)
-		return Eq(ls, rs), nil
+		return env.strEq(ls, rs), nil
 	}
 	if l.sort != r.sort {
 		return "", fmt.Errorf("equality between sorts %s and %s", l.sort, r.sort)
 	}
+	if l.sort == "Str" {
+		return env.strEq(l.t, r.t), nil
+	}
 	return Eq(l.t, r.t), nil
+}
+
+// strEq: equality of byte strings. In a positive position of a goal the
+// extensional form (same length, same bytes) is offered as an alternative way
+// to prove it; byte strings are extensional, so the two are equivalent.
+func (env *SpecEnv) strEq(a, b string) string {
+	if a == b {
+		return "true"
+	}
+	if env.pol != 1 {
+		return Eq(a, b)
+	}
+	return fmt.Sprintf("(or (= %s %s) (and (= (slen %s) (slen %s)) (forall ((ei Int)) (! (=> (and (<= 0 ei) (< ei (slen %s))) (= (sat %s ei) (sat %s ei))) :pattern ((sat %s ei)) :pattern ((sat %s ei))))))", a, b, a, b, a, a, b, a, b)
+}
+
+// evalGoal evaluates a clause that is to be proved (positive polarity).
+func (env *SpecEnv) evalGoal(e Expr) (string, error) {
+	saved := env.pol
+	env.pol = 1
+	g, err := env.evalBool(e)
+	env.pol = saved
+	return g, err
 }
 
 func (env *SpecEnv) evalIn(l, r sval) (sval, error) {
@@ -913,7 +963,7 @@ func (env *SpecEnv) applySpecFun(sf *SpecFun, argExprs []Expr) (sval, error) {
 	}
 	if sf.Body != nil {
 		// defined: expand in an environment with only the parameters
-		sub := &SpecEnv{f: f, vars: map[string]sval{}, st: env.st, old: env.old, pkg: env.pkg, inOld: env.inOld, reach: env.reach}
+		sub := &SpecEnv{f: f, vars: map[string]sval{}, st: env.st, old: env.old, pkg: env.pkg, inOld: env.inOld, reach: env.reach, pol: env.pol}
 		for i, p := range sf.Params {
 			sub.vars[p.Name] = sval{t: args[i], sort: psorts[i]}
 		}
